@@ -4,7 +4,10 @@ import io
 
 from hypothesis import strategies as st
 
-STATUSES = [100, 101, 102, 103, 199, 200, 200, 200, 201, 204, 205, '299 Custom', 304, 404, 418, 500, 999]
+STATUSES = [100, 101, 102, 103, 199, 200, 200, 200, 201, 204, 205, '299 Custom', 304, 404, 418, 500, 999,
+            # string statuses: valid with surrounding blanks, and malformed ones (first token is not exactly a three-digit code) which must end as a well-formed 500
+            ' 201 Created ', '204 No Content', '1000 Too Big', '2040 No Content', '200OK Fine', '404.5 x', 'abc def', '0200 OK', '+200 OK', '99 Low', '\uff12\uff10\uff10 OK', '20 0']
+_VALID_STR_STATUS = __import__('re').compile(r'^\s*[1-9][0-9]{2}\s+\S')
 ITEM = st.one_of(st.sampled_from(['a', 'bc', '', 'é', 'x' * 40, '0']), st.text(max_size=6))
 
 
@@ -57,10 +60,11 @@ def outcome_st(draw, depth=0):
     if k == 'gen':
         return dict(draw(items_st()), k='gen', raise_at=draw(st.sampled_from([None, None, None, 0])))
     if k == 'iterobj':
-        return dict(draw(items_st()), k='iterobj', has_close=draw(st.booleans()), raise_at=draw(st.sampled_from([None, None, None, 0])))
+        return dict(draw(items_st()), k='iterobj', has_close=draw(st.booleans()), raise_at=draw(st.sampled_from([None, None, None, 0])),
+                    close_raises=draw(st.integers(0, 5)) == 0)
     if k == 'file':
         return {'k': 'file', 'data': draw(st.sampled_from(['', 'file content', 'z' * 100])), 'has_close': draw(st.booleans()), 'has_iter': draw(st.booleans()),
-                'seekable': draw(st.booleans()), 'pos': draw(st.sampled_from([0, 0, 1, 5, 12, 100]))}
+                'seekable': draw(st.booleans()), 'pos': draw(st.sampled_from([0, 0, 1, 5, 12, 100])), 'close_raises': draw(st.integers(0, 5)) == 0}
     body = draw(outcome_st(depth + 1).filter(lambda o: o['k'] != 'exc'))
     return {'k': 'resp', 'cls': draw(st.sampled_from(['HTTPResponse', 'HTTPResponse', 'HTTPError'])), 'status': draw(st.sampled_from([None] + STATUSES)),
             'body': body, 'how': draw(st.sampled_from(['return', 'raise', 'yield'])),
@@ -78,6 +82,7 @@ class _IterBase:
     def __init__(self, tr, spec):
         self.items = [_enc(spec['type'], s) for s in spec['items']]
         self.raise_at = spec.get('raise_at')
+        self.close_raises = bool(spec.get('close_raises'))
         self.closes = 0
         self.started = 0
         self.produced = False
@@ -96,9 +101,14 @@ class _IterBase:
             yield it
 
 
+CLOSE_FAILED = 'close() of the handler iterable failed (harness)'
+
+
 class ClosableIter(_IterBase):
     def close(self):
         self.closes += 1
+        if self.close_raises:
+            raise RuntimeError(CLOSE_FAILED)
 
 
 class PlainIter(_IterBase):
@@ -108,6 +118,7 @@ class PlainIter(_IterBase):
 class _FileBase:
     def __init__(self, tr, spec):
         self._b = io.BytesIO(spec['data'].encode('utf8'))
+        self.close_raises = bool(spec.get('close_raises'))
         self.closes = 0
         self.produced = False
         self.is_file = True
@@ -123,6 +134,8 @@ class _FileBase:
 class FileClose(_FileBase):
     def close(self):
         self.closes += 1
+        if self.close_raises:
+            raise RuntimeError(CLOSE_FAILED)
 
 
 class FileCloseIter(FileClose):
@@ -237,9 +250,20 @@ def build(spec, tr, shared_store, reqno):
 
 
 def status_of(s, default):
+    """-> the status code, or 'invalid' for a string whose first token is not exactly a three-digit code (assigning it must fail)"""
     if s is None:
         return default
-    return s if isinstance(s, int) else int(s.split()[0])
+    if isinstance(s, int):
+        return s
+    return int(s.split()[0]) if _VALID_STR_STATUS.match(s) and s.split()[0].isascii() else 'invalid'
+
+
+def _nested_invalid(spec):
+    return spec['k'] == 'resp' and (status_of(spec['status'], 200) == 'invalid' or _nested_invalid(spec['body']))
+
+
+def has_failing_close(spec):
+    return bool(spec.get('close_raises') and spec.get('has_close')) or (spec['k'] == 'resp' and has_failing_close(spec['body']))
 
 
 def model_status(spec, status, handlers):
@@ -251,6 +275,8 @@ def model_status(spec, status, handlers):
         return status
     if k == 'resp':
         st_ = status_of(spec['status'], 500 if spec['cls'] == 'HTTPError' else 200)
+        if st_ == 'invalid' or _nested_invalid(spec['body']):
+            return 500          # constructing the response (or one nested in it) fails inside the handler
         if spec['cls'] == 'HTTPError':
             h = handlers.get(str(st_))
             if h == 'raise':
